@@ -28,6 +28,9 @@ impl Prop for C01 {
             // deeper bounds: up to 8 stanzas, larger sources
             gcfg.max_stanzas = 8;
             max_src = 25;
+            if gcfg.deepen(rng) {
+                out.feat("deep_bounds(depth<=6,stanzas<=12)");
+            }
         }
         let case = build_case(rng, &gcfg, 25, 15, max_src);
         let tree = parse_python(&case.source);
